@@ -446,6 +446,14 @@ def run(sh):
             run_param_direct(sh, tab, xlim, bool(rng.random() < 0.5))
             if rng.random() < 0.3:
                 run_cyclepoints_df(sh, tab, xlim, True, bool(rng.random() < 0.5), plot_sig=False)
+            if rng.random() < 0.6:
+                # a selection of the table (the bursting cycles only / every other cycle): rows are no longer neighbouring cycles
+                d0 = tab['df']
+                b = d0['is_burst'].to_numpy().astype(bool)
+                sub = d0[b] if 2 <= b.sum() < len(d0) and rng.random() < 0.6 else d0.iloc[int(rng.integers(0, 2))::2]
+                if len(sub) >= 2:
+                    run_cyclepoints_df(sh, dict(tab, df=sub), xlim, True, bool(rng.random() < 0.5))
+                    sh.note('cyclepoints_of_a_table_with_dropped_rows')
             sh.note('figures:' + cls, 4)
             sh.note('xlim:' + kind)
             sh.case_done(None, nt, key='%d:%d:%s' % (sh.shard, it, kind),
